@@ -33,7 +33,8 @@ RULE = ("random chunk lists (1..5 chunks, sizes around 1/15/16/17/255/256, data 
         ";n=\"q\" with BWS, last-chunk variants, trailer fields) followed by extra bytes; size lines "
         "of 1021..1025 bytes and trailer sections of 65534..65537 bytes; byte-level and targeted "
         "mutations classified by the reference; every 1-cut split <= 260 bytes, every 2-cut split <= 44 "
-        "bytes, cuts around every CRLF and random splits otherwise.  A case is distinct by its byte "
+        "bytes, cuts around every CRLF and random splits otherwise; the limit cases (size line as extensions or as leading "
+        "zeros, 1..2000 trailer lines) are cut at every offset (size line) / every offset of head and tail + samples (trailers).  A case is distinct by its byte "
         "string; non-trivial = it has chunk data, extra bytes or is a mutation.")
 ASSUMPTIONS = ["trusted base: vf/engines/refchunked.py (selftested against hand-written vectors)",
                "documented limits read as: size line (without CRLF) < 1024 bytes, trailer lines incl. their CRLFs <= 65536 bytes",
@@ -42,7 +43,7 @@ SHARDS = {"quick": 4, "thorough": 16}
 FLOORS = {"decoder_runs": 20000, "must_accept_runs": 10000, "must_reject_runs": 2000, "incomplete_runs": 2000,
           "reject_size_not_hex": 200, "reject_data_not_crlf": 200, "reject_ext_byte": 200,
           "tochunk_streams": 100, "extra_bytes_streams": 200, "trailer_streams": 100, "late_data_refused": 100,
-          "trailer_limit_streams": 8, "sizeline_limit_streams": 8, "final_crlf_split_at_limit": 4}
+          "trailer_limit_streams": 8, "sizeline_limit_streams": 8, "final_crlf_split_at_limit": 4, "limit_case_split_runs": 5000}
 READY = True
 
 MAX_LINE = 1023
@@ -143,11 +144,18 @@ def gen_limit_line(rng):
     """A size line (without CRLF) of 1021..1025 bytes, on a data chunk or on the last chunk."""
     L = rng.choice([1021, 1022, 1023, 1023, 1024, 1025])
     data = b"hello"
-    if rng.random() < 0.5:
+    r = rng.random()
+    if r < 0.35:
         line = b"5" + gen_ext(rng, L - 1)
         enc = line + b"\r\n" + data + b"\r\n0\r\n\r\n"
-    else:
+    elif r < 0.7:
         line = b"0" + gen_ext(rng, L - 1)
+        enc = b"5\r\n" + data + b"\r\n" + line + b"\r\n\r\n"
+    elif r < 0.85:  # the whole line is the size: leading zeros up to the limit
+        line = b"0" * (L - 1) + b"5"
+        enc = line + b"\r\n" + data + b"\r\n0\r\n\r\n"
+    else:
+        line = b"0" * L
         enc = b"5\r\n" + data + b"\r\n" + line + b"\r\n\r\n"
     assert len(line) == L, (len(line), L)
     return enc + gen_extra(rng), {"mode": "limit-line", "line": L, "body": data}
@@ -158,9 +166,9 @@ def gen_limit_trailers(rng):
     T = rng.choice([65534, 65535, 65536, 65535, 65536, 65537])
     lines = []
     left = T
-    nlines = rng.choice([1, 1, 2, 5])
+    nlines = rng.choice([1, 1, 2, 5, 2000])
     for k in range(nlines):
-        size = left if k == nlines - 1 else rng.randint(6, max(6, left // 2))
+        size = left if k == nlines - 1 else (rng.randint(6, 40) if nlines > 100 else rng.randint(6, max(6, left // 2)))
         if left - size < 6 and k != nlines - 1:
             size = left
         lines.append(b"X-T:" + b"v" * (size - 6))
@@ -303,9 +311,21 @@ def judge(cls, r, o):
     return None
 
 
-def cuts_for(rng, enc, quick):
+def cuts_for(rng, enc, quick, dense=False):
     n = len(enc)
     seen = set()
+    if dense and n > 260:
+        # limit cases: every offset of a ~1 KiB size-line encoding; for the 64 KiB trailer encodings every
+        # offset in the structural head and tail plus a sample of the middle
+        if n <= 1300:
+            positions = range(1, n)
+        else:
+            end = enc.rfind(b"\r\n\r\n") + 4
+            positions = sorted(set(list(range(1, 40)) + list(range(max(1, end - 60), min(n, end + 8))) + [rng.randrange(1, n) for _ in range(120)]))
+        for p in positions:
+            if 0 < p < n and (p,) not in seen:
+                seen.add((p,))
+                yield (p,)
 
     def emit(c):
         c = tuple(c)
@@ -380,7 +400,7 @@ def refine_key(key, enc, cuts, r, o, whole):
     return key, None
 
 
-def check_stream(ctx, http, rng, enc, meta, only_cuts=None):
+def check_stream(ctx, http, rng, enc, meta, only_cuts=None, dense=False):
     r = refchunked.read(enc)
     cls = classify_stream(r)
     ctx.count("streams_" + cls)
@@ -400,7 +420,7 @@ def check_stream(ctx, http, rng, enc, meta, only_cuts=None):
     runs = [((), whole)]
     if whole["late"] == "refused":
         ctx.count("late_data_refused")
-    cut_list = [tuple(only_cuts)] if only_cuts is not None else cuts_for(rng, enc, ctx.quick)
+    cut_list = [tuple(only_cuts)] if only_cuts is not None else cuts_for(rng, enc, ctx.quick, dense)
     for cuts in cut_list:
         if cuts:
             runs.append((cuts, None))
@@ -448,7 +468,9 @@ def run(ctx):
             continue
         rng = ctx.case_rng("limit", j)
         enc, meta = gen_limit_trailers(rng) if j % 2 == 0 else gen_limit_line(rng)
-        res = check_stream(ctx, http, rng, enc, meta)
+        res = check_stream(ctx, http, rng, enc, meta, dense=True)
+        if res:
+            ctx.count("limit_case_split_runs", res[3] - 1)
         ctx.count("trailer_limit_streams" if j % 2 == 0 else "sizeline_limit_streams")
         ctx.seen("limit_cases", "%s line=%s trailers=%s -> %s" % (meta["mode"], meta.get("line"), meta.get("trailer_bytes"), res and res[0]))
     for i in ctx.cases(5000, 500000):
